@@ -1856,3 +1856,33 @@ server_channel_init = Spec(
            'Conn.get_key_option': conn_option_stub('key_option', 'any'),
            'encode_env': ev_stub('encode_env', 'any'), 'dict': ev_stub('dict', 'any')},
     ensures=[('environment-options-of-the-accepted-key-are-applied', sci_post)])
+
+
+# ====================================================================================================
+# authorized_keys restrictions on an entry: _SSHAuthorizedKeyEntry.match_options is the oracle `entry_accepts` of
+# SSHAuthorizedKeys.validate above.  From the property: a principals="..." restriction (cert-authority lines) is
+# satisfied only by a certificate that names, for every listed pattern list, at least one matching principal - a
+# certificate with an EMPTY principal list never satisfies it (and the server then validates such a certificate
+# with cert_user=None, so this check is the only one standing between the CA and "any user").
+# The contract object is C17's (contracts/c17.py spec_match_options); re-registered so that it is checked under C05.
+# ====================================================================================================
+import copy as _copy
+
+authorized_keys_match_options = _copy.copy(C17.match_options)
+authorized_keys_match_options.prop = PROP
+Spec.registry.append(authorized_keys_match_options)
+
+
+def empty_principals_never_satisfy(c):
+    """explicit corner of the clause above: principals= present and non-empty, certificate lists no principal"""
+    pn, ps = C17._opt(C17.opt_principals(c.old('options')), C17._OP)
+    cp = c.argv('cert_principals')
+    if cp is VNone or not isinstance(cp, VOpt):
+        return z3.BoolVal(True)
+    restricted = z3.And(z3.Not(pn), z3.Length(ps) > 0)
+    no_principals = z3.And(z3.Not(cp.isnone), z3.Length(cp.val.z) == 0)
+    return z3.Implies(z3.And(restricted, no_principals), z3.Not(c.truthy(c.result_v)))
+
+
+authorized_keys_match_options.ensures = list(authorized_keys_match_options.ensures) + [
+    ('certificate-without-principals-never-satisfies-a-principals-restriction', empty_principals_never_satisfy)]
